@@ -568,3 +568,50 @@ func (p *RestakeParamChurn) Act(e *Env) {
 		e.St.Fault("restake_allowed_denoms_changed_by_governance")
 	}
 }
+
+// DelegationChurn: plain delegate / undelegate traffic without any model behind it (used where only conservation is judged):
+// it keeps unbonding entries in flight so that a slash also hits the not-bonded pool.
+type DelegationChurn struct {
+	Users []*world.Account
+	Rate  int
+	deleg map[string]map[string]int64
+}
+
+type churnMeta struct {
+	User, Val string
+	Amt       int64
+}
+
+func (a *DelegationChurn) OnBlock(e *Env, blk *world.BlockRecord) {
+	for _, tx := range blk.Txs {
+		cm, ok := tx.Intent.Meta.(*churnMeta)
+		if !ok || !tx.OK() {
+			continue
+		}
+		if a.deleg[cm.User] == nil {
+			a.deleg[cm.User] = map[string]int64{}
+		}
+		a.deleg[cm.User][cm.Val] += cm.Amt
+	}
+}
+
+func (a *DelegationChurn) Act(e *Env) {
+	if a.deleg == nil {
+		a.deleg = map[string]map[string]int64{}
+	}
+	if e.Draining || len(a.Users) == 0 || !e.Ch.Bool("churn.deleg", a.Rate) {
+		return
+	}
+	u := a.Users[e.Ch.Intn("churn.deleg.who", len(a.Users))]
+	v := e.W.Vals[e.Ch.Intn("churn.deleg.val", len(e.W.Vals))]
+	have := a.deleg[u.Addr.String()][v.Val.String()]
+	if have > 0 && e.Ch.Bool("churn.deleg.un", 600) {
+		amt := 1 + int64(e.Ch.Intn("churn.deleg.unamt", int(min64(have, 1<<30))))
+		m := stakingtypes.NewMsgUndelegate(u.Addr.String(), v.Val.String(), sdk.NewInt64Coin("uband", amt))
+		e.Submit(u, "churn_undelegate", &churnMeta{User: u.Addr.String(), Val: v.Val.String(), Amt: -amt}, m)
+		return
+	}
+	amt := int64(1000 + e.Ch.Intn("churn.deleg.amt", 5_000_000))
+	m := stakingtypes.NewMsgDelegate(u.Addr.String(), v.Val.String(), sdk.NewInt64Coin("uband", amt))
+	e.Submit(u, "churn_delegate", &churnMeta{User: u.Addr.String(), Val: v.Val.String(), Amt: amt}, m)
+}
